@@ -1340,3 +1340,570 @@ def gen_SystemPy(repo):
     L.append("def spaceEnvBad (nenv e : Int) : Bool := %s" % (bad if bad is not None else "false"))
     L.append("\nend Strengths.Gen")
     return "\n".join(L) + "\n"
+
+
+# =============================================================================================
+# C19: reaction equations (rdnetwork.py Reaction, value_processing label rules)
+# =============================================================================================
+def _norm(src, node):
+    return re.sub(r"\s+", "", src.seg(node))
+
+
+def _string_consts(fn, skip_doc=True):
+    """string constants of a function body in source order (docstrings skipped)"""
+    doc_nodes = set()
+    for n in ast.walk(fn):
+        if isinstance(n, (ast.FunctionDef, ast.ClassDef)) and n.body and isinstance(n.body[0], ast.Expr) \
+                and isinstance(n.body[0].value, ast.Constant) and isinstance(n.body[0].value.value, str):
+            doc_nodes.add(id(n.body[0].value))
+    out = []
+    for n in ast.walk(fn):
+        if isinstance(n, ast.Constant) and isinstance(n.value, str) and id(n) not in doc_nodes:
+            out.append((n.lineno, n.col_offset, n.value))
+    return [v for _, _, v in sorted(out)]
+
+
+def _raises(stmts):
+    return any(isinstance(s, ast.Raise) for s in stmts)
+
+
+@group
+def gen_Network(repo):
+    net = PySrc(repo, "src/strengths/rdnetwork.py")
+    vp = PySrc(repo, "src/strengths/value_processing.py")
+    L = ["namespace Strengths.Gen\n"]
+
+    # ---- k*_units_dimensions: UnitsDimensions(space=.., time=.., quantity=..) over `count`
+    dims = {}
+    over = {}
+    for fname in ("kf_units_dimensions", "kr_units_dimensions"):
+        fn = net.func(fname, "Reaction")
+        call = None
+        for n in ast.walk(fn):
+            if isinstance(n, ast.Return) and isinstance(n.value, ast.Call) and getattr(n.value.func, "id", "") == "UnitsDimensions":
+                call = n.value
+        if call is None or call.args or sorted(k.arg for k in call.keywords) != ["quantity", "space", "time"]:
+            raise AnchorLost("rdnetwork.py:%s return UnitsDimensions(space=,time=,quantity=)" % fname)
+        tr = ExprTr(net, {"count": "count"})
+        dims[fname] = {k.arg: tr.tr(k.value) for k in call.keywords}
+        # what is summed: `count += self._X[k]` inside `for k in list(self._X)`
+        o = None
+        for n in ast.walk(fn):
+            if isinstance(n, ast.For) and len(n.body) == 1 and isinstance(n.body[0], ast.AugAssign) \
+                    and isinstance(n.body[0].op, ast.Add) and getattr(n.body[0].target, "id", "") == "count":
+                m = re.fullmatch(r"self\.(\w+)\[k\]", _norm(net, n.body[0].value))
+                it = re.fullmatch(r"list\(self\.(\w+)\)", _norm(net, n.iter))
+                if m and it and m.group(1) == it.group(1):
+                    o = m.group(1)
+        init = [n for n in fn.body if isinstance(n, ast.Assign) and getattr(n.targets[0], "id", "") == "count"
+                and isinstance(n.value, ast.Constant) and n.value.value == 0]
+        if o is None or not init:
+            raise AnchorLost("rdnetwork.py:%s count loop" % fname)
+        over[fname] = o
+    if dims["kf_units_dimensions"] != dims["kr_units_dimensions"]:
+        raise AnchorLost("rdnetwork.py: kf/kr_units_dimensions formulas differ")
+    d = dims["kf_units_dimensions"]
+    L.append("/-- `Reaction.kf_units_dimensions` / `kr_units_dimensions` (identical formulas) over `count` -/")
+    L.append("def kDimSpace (count : Int) : Int := %s" % d["space"])
+    L.append("def kDimTime (count : Int) : Int := %s" % d["time"])
+    L.append("def kDimQty (count : Int) : Int := %s" % d["quantity"])
+    L.append("/-- the dictionaries whose values are summed into `count` -/")
+    L.append("def kfCountsOver : String := %s" % lean_str(over["kf_units_dimensions"]))
+    L.append("def krCountsOver : String := %s\n" % lean_str(over["kr_units_dimensions"]))
+
+    # ---- kf / kr setters: which dimension function, which acceptance flags
+    def setter(cls, prop, src=net):
+        for n in src.tree.body:
+            if isinstance(n, ast.ClassDef) and n.name == cls:
+                for f in n.body:
+                    if isinstance(f, ast.FunctionDef) and f.name == prop and any(
+                            isinstance(dd, ast.Attribute) and dd.attr == "setter" for dd in f.decorator_list):
+                        return f
+        raise AnchorLost("%s:%s.%s setter" % (src.rel, cls, prop))
+
+    def unitvar_call(fn, src=net):
+        for n in ast.walk(fn):
+            if isinstance(n, ast.Call) and _norm(src, n.func) == "valproc.process_unitvar_input":
+                args = [_norm(src, a) for a in n.args]
+                kw = {k.arg: _norm(src, k.value) for k in n.keywords}
+                return args, kw
+        raise AnchorLost("%s:%s process_unitvar_input call" % (src.rel, fn.name))
+    rows = []
+    for cls, prop in (("Reaction", "kf"), ("Reaction", "kr"), ("Species", "D"), ("Species", "density")):
+        args, kw = unitvar_call(setter(cls, prop))
+        if len(args) != 3:
+            raise AnchorLost("rdnetwork.py:%s.%s process_unitvar_input positional arguments" % (cls, prop))
+        rows.append((cls + "." + prop, args[1], args[2], kw.get("accepts_singlevalue", ""), kw.get("accepts_dict", ""), kw.get("accepts_array", "")))
+    L.append("/-- `process_unitvar_input` calls of the setters: (property, units system, dimensions, single, dict, array) -/")
+    L.append("def unitVarSetters : List (String × String × String × String × String × String) := %s\n" % lean_list(
+        ["(%s)" % ", ".join(lean_str(x) for x in r) for r in rows]))
+
+    # ---- _fromstring: separators, side count, token lengths
+    fs = net.func("_fromstring", "Reaction")
+    seps = []
+    for n in ast.walk(fs):
+        if isinstance(n, ast.Call) and isinstance(n.func, ast.Attribute) and n.func.attr == "split" and len(n.args) == 1:
+            seps.append((n.lineno, n.col_offset, const_str(n.args[0])))
+    seps = [s for _, _, s in sorted(seps)]
+    lens = []
+    for n in ast.walk(fs):
+        if isinstance(n, ast.Compare) and isinstance(n.left, ast.Call) and getattr(n.left.func, "id", "") == "len" \
+                and isinstance(n.comparators[0], ast.Constant):
+            lens.append((n.lineno, n.col_offset, "%s%s%d" % (_norm(net, n.left), {ast.Eq: "==", ast.NotEq: "!="}.get(type(n.ops[0]), "?"),
+                                                                n.comparators[0].value)))
+    lens = [s for _, _, s in sorted(lens)]
+    if not seps or not lens:
+        raise AnchorLost("rdnetwork.py:_fromstring split separators / length tests")
+    L.append("/-- `Reaction._fromstring`: separators of the `split(sep)` calls and the `len(..)` tests, in source order -/")
+    L.append("def eqSplitSeps : List String := %s" % lean_list([lean_str(s) for s in seps]))
+    L.append("def eqLenTests : List String := %s" % lean_list([lean_str(s) for s in lens]))
+    # the accumulation `if d.get(label, None) == None : d[label] = coef  else : d[label] += coef`
+    acc = None
+    for n in ast.walk(fs):
+        if isinstance(n, ast.If) and _norm(net, n.test) == "d.get(label,None)==None" and len(n.body) == 1 and len(n.orelse) == 1:
+            acc = (_norm(net, n.body[0]), _norm(net, n.orelse[0]))
+    if acc is None:
+        raise AnchorLost("rdnetwork.py:_fromstring repeated-label accumulation")
+    L.append("def eqAccumulate : String × String := (%s, %s)" % (lean_str(acc[0]), lean_str(acc[1])))
+    coef = [(_norm(net, n)) for n in ast.walk(fs) if isinstance(n, ast.Assign) and _norm(net, n.targets[0]) in ("coef", "coef,label")]
+    L.append("def eqCoefAssigns : List String := %s\n" % lean_list([lean_str(s) for s in coef]))
+
+    # ---- to_string: the text pieces
+    ts = net.func("to_string", "Reaction")
+    L.append("/-- string constants of `Reaction.to_string` in source order -/")
+    L.append("def toStringConsts : List String := %s" % lean_list([lean_str(s) for s in _string_consts(ts)]))
+    tests = [(n.lineno, _norm(net, n.test)) for n in ast.walk(ts) if isinstance(n, ast.If)]
+    L.append("def toStringTests : List String := %s\n" % lean_list([lean_str(s) for _, s in sorted(tests)]))
+
+    # ---- ssto / psto / dsto / order / rorder
+    def ret_listcomp(fname):
+        fn = net.func(fname, "Reaction")
+        for n in ast.walk(fn):
+            if isinstance(n, ast.Return) and isinstance(n.value, ast.ListComp):
+                lc = n.value
+                if len(lc.generators) != 1 or _norm(net, lc.generators[0].iter) != "species_labels" or lc.generators[0].ifs:
+                    raise AnchorLost("rdnetwork.py:%s comprehension over species_labels" % fname)
+                return lc.elt
+        raise AnchorLost("rdnetwork.py:%s return [.. for s in species_labels]" % fname)
+    nm = {"int(self._substrates.get(s,0))": "sub", "int(self._products.get(s,0))": "prod"}
+    L.append("/-- entries of `ssto`, `psto`, `dsto` for one species (sub / prod = its coefficient in the two dictionaries) -/")
+    for fname in ("ssto", "psto", "dsto"):
+        L.append("def %sEntry (sub prod : Int) : Int := %s" % (fname, ExprTr(net, nm).tr(ret_listcomp(fname))))
+    for fname in ("order", "rorder"):
+        fn = net.func(fname, "Reaction")
+        o = None
+        for n in ast.walk(fn):
+            if isinstance(n, ast.For) and len(n.body) == 1 and isinstance(n.body[0], ast.AugAssign) and isinstance(n.body[0].op, ast.Add):
+                m = re.fullmatch(r"self\.(\w+)\[k\]", _norm(net, n.body[0].value))
+                it = re.fullmatch(r"list\(self\.(\w+)\)", _norm(net, n.iter))
+                if m and it and m.group(1) == it.group(1):
+                    o = m.group(1)
+        if o is None:
+            raise AnchorLost("rdnetwork.py:%s sum loop" % fname)
+        L.append("def %sOver : String := %s" % (fname, lean_str(o)))
+    L.append("")
+
+    # ---- split(): the two Reaction(...) calls
+    sp = net.func("split", "Reaction")
+    calls = []
+    for n in ast.walk(sp):
+        if isinstance(n, ast.Call) and getattr(n.func, "id", "") == "Reaction":
+            calls.append((n.lineno, sorted((k.arg, _norm(net, k.value)) for k in n.keywords)))
+    if len(calls) != 2:
+        raise AnchorLost("rdnetwork.py:split two Reaction(...) calls")
+    L.append("/-- keyword arguments of the two `Reaction(...)` calls of `split()` (forward, reverse) -/")
+    for tag, (_, kws) in zip(("Fwd", "Rev"), sorted(calls)):
+        L.append("def split%s : List (String × String) := %s" % (tag, lean_list(["(%s, %s)" % (lean_str(a), lean_str(b)) for a, b in kws])))
+    L.append("")
+
+    # ---- equilibrium_constant: the ratio expressions and the zero tests
+    ec = net.func("equilibrium_constant", "Reaction")
+    divs = sorted((n.lineno, _norm(net, n)) for n in ast.walk(ec) if isinstance(n, ast.BinOp) and isinstance(n.op, ast.Div))
+    zeros = sorted((n.lineno, _norm(net, n.test)) for n in ast.walk(ec) if isinstance(n, ast.If) and "value==0" in _norm(net, n.test))
+    if not divs or not zeros:
+        raise AnchorLost("rdnetwork.py:equilibrium_constant ratio / zero test")
+    L.append("def kRatios : List String := %s" % lean_list([lean_str(s) for _, s in divs]))
+    L.append("def kZeroTests : List String := %s\n" % lean_list([lean_str(s) for _, s in zeros]))
+
+    # ---- RDNetwork.environments setter: empty list and the reserved name
+    es = setter("RDNetwork", "environments")
+    empty, reserved = False, None
+    for n in ast.walk(es):
+        if isinstance(n, ast.If) and _raises(n.body):
+            t = _norm(net, n.test)
+            if t == "len(environments)==0":
+                empty = True
+            m = re.fullmatch(r"e==\"(\w+)\"", t)
+            if m:
+                reserved = m.group(1)
+    if not empty or reserved is None:
+        raise AnchorLost("rdnetwork.py:RDNetwork.environments setter tests")
+    L.append("/-- `RDNetwork.environments` setter: raises on an empty array and on this reserved name -/")
+    L.append("def envEmptyRejected : Bool := true")
+    L.append("def envReserved : String := %s\n" % lean_str(reserved))
+
+    # ---- _assert_validity: the three raise conditions (normalised text)
+    av = net.func("_assert_validity", "RDNetwork")
+    conds = sorted((n.lineno, _norm(net, n.test)) for n in ast.walk(av) if isinstance(n, ast.If) and _raises(n.body))
+    if len(conds) < 4:
+        raise AnchorLost("rdnetwork.py:_assert_validity raise conditions")
+    L.append("def validityRaiseConds : List String := %s\n" % lean_list([lean_str(s) for _, s in conds]))
+
+    # ---- label rules
+    al = vp.func("assert_string_is_a_valid_label")
+    tests = sorted((n.lineno, _norm(vp, n.test)) for n in ast.walk(al) if isinstance(n, ast.If) and _raises(n.body))
+    if not tests:
+        raise AnchorLost("value_processing.py:assert_string_is_a_valid_label tests")
+    L.append("/-- raise conditions of `assert_string_is_a_valid_label` (per character `c` of the label) -/")
+    L.append("def labelRaiseConds : List String := %s" % lean_list([lean_str(s) for _, s in tests]))
+    L.append("\nend Strengths.Gen")
+    return "\n".join(L) + "\n"
+
+
+# =============================================================================================
+# C20: validation tables (alias lists, mandatory keys, enumerations, size / range tests, field dimensions)
+# =============================================================================================
+_VAL_MODULES = ["units.py", "rdnetwork.py", "rdgridspace.py", "rdgraphspace.py", "rdsystem.py", "rdscript.py"]
+
+
+def _class_func(src, cls, name, setter=False):
+    for n in src.tree.body:
+        if isinstance(n, ast.ClassDef) and n.name == cls:
+            for f in n.body:
+                if isinstance(f, ast.FunctionDef) and f.name == name:
+                    is_setter = any(isinstance(dd, ast.Attribute) and dd.attr == "setter" for dd in f.decorator_list)
+                    if is_setter == setter:
+                        return f
+    raise AnchorLost("%s:%s.%s%s" % (src.rel, cls, name, " setter" if setter else ""))
+
+
+def _membership_lists(src, fn, var):
+    """string lists L of tests `var not in L` / `not var in L` (that guard a raise) inside fn"""
+    out = []
+    for n in ast.walk(fn):
+        if not (isinstance(n, ast.If) and _raises(n.body)):
+            continue
+        t = n.test
+        neg = False
+        if isinstance(t, ast.UnaryOp) and isinstance(t.op, ast.Not):
+            t, neg = t.operand, True
+        if isinstance(t, ast.Compare) and len(t.ops) == 1 and isinstance(t.comparators[0], ast.List) \
+                and _norm(src, t.left) == var:
+            if (isinstance(t.ops[0], ast.NotIn) and not neg) or (isinstance(t.ops[0], ast.In) and neg):
+                out.append(str_list(t.comparators[0]))
+    return out
+
+
+def _raise_tests(src, fn):
+    return [s for _, s in sorted((n.lineno, _norm(src, n.test)) for n in ast.walk(fn) if isinstance(n, ast.If) and _raises(n.body))]
+
+
+def _mandatory_keys(src, fn):
+    """keys of `d` the function cannot do without: `if "k" in d : .. else : raise`, and `d["k"]` read outside
+    any `if "k" in d` guard"""
+    mand = []
+
+    def visit(stmts, guarded):
+        for st in stmts:
+            if isinstance(st, ast.If):
+                m = re.fullmatch(r"\"([^\"]+)\"ind", _norm(src, st.test))
+                if m is None and isinstance(st.test, ast.BoolOp) and isinstance(st.test.op, ast.And):
+                    # `"k" in d and <more about d["k"]>` : the first conjunct guards the others and the body
+                    m0 = re.fullmatch(r"\"([^\"]+)\"ind", _norm(src, st.test.values[0]))
+                    if m0:
+                        for v in st.test.values[1:]:
+                            scan(v, guarded | {m0.group(1)})
+                        visit(st.body, guarded | {m0.group(1)})
+                        visit(st.orelse, guarded)
+                        continue
+                if m:
+                    if _raises(st.orelse) and m.group(1) not in mand:
+                        mand.append(m.group(1))
+                    scan(st.test, guarded)
+                    visit(st.body, guarded | {m.group(1)})
+                    visit(st.orelse, guarded)
+                    continue
+                scan(st.test, guarded)
+                visit(st.body, guarded)
+                visit(st.orelse, guarded)
+            elif isinstance(st, (ast.For, ast.While)):
+                scan(st.iter if isinstance(st, ast.For) else st.test, guarded)
+                visit(st.body, guarded)
+            elif isinstance(st, ast.FunctionDef):
+                continue
+            else:
+                scan(st, guarded)
+
+    def scan(node, guarded):
+        for n in ast.walk(node):
+            if isinstance(n, ast.Subscript) and isinstance(n.value, ast.Name) and n.value.id == "d" \
+                    and isinstance(n.ctx, ast.Load) and isinstance(n.slice, ast.Constant) and isinstance(n.slice.value, str):
+                if n.slice.value not in guarded and n.slice.value not in mand:
+                    mand.append(n.slice.value)
+    visit(fn.body, set())
+    return mand
+
+
+@group
+def gen_Validation(repo):
+    srcs = {m: PySrc(repo, "src/strengths/" + m) for m in _VAL_MODULES}
+    L = ["namespace Strengths.Gen\n"]
+
+    # ---- alias tables and mandatory keys of every function that calls process_input_dict_keys
+    tables = []
+    for m in _VAL_MODULES:
+        src = srcs[m]
+        for fn in src.tree.body:
+            if not isinstance(fn, ast.FunctionDef):
+                continue
+            for n in ast.walk(fn):
+                if isinstance(n, ast.Call) and _norm(src, n.func).endswith("process_input_dict_keys") and len(n.args) >= 2:
+                    if not isinstance(n.args[1], ast.List):
+                        raise AnchorLost("%s:%s synonyms literal" % (m, fn.name))
+                    syn = [str_list(e) for e in n.args[1].elts]
+                    if n.keywords or len(n.args) > 2:
+                        raise AnchorLost("%s:%s process_input_dict_keys policy argument" % (m, fn.name))
+                    tables.append((fn.name, syn, _mandatory_keys(src, fn)))
+    want = {"unitssystem_from_dict", "unitsdimensions_from_dict", "unitarray_from_dict", "species_from_dict", "reaction_from_dict",
+            "rdnetwork_from_dict", "rdgridspace_from_dict", "rdgraphspacenode_from_dict", "rdgraphspaceedge_from_dict",
+            "rdgraphspace_from_dict", "rdsystem_from_dict", "rdscript_from_dict"}
+    missing = want - {t[0] for t in tables}
+    if missing:
+        raise AnchorLost("process_input_dict_keys call in " + ", ".join(sorted(missing)))
+    L.append("/-- synonym lists of every `process_input_dict_keys(d, [[..],..])` call, per enclosing function -/")
+    L.append("def aliasTable : List (String × List (List String)) := [")
+    L.append(",\n".join("  (%s, %s)" % (lean_str(f), lean_list([lean_list([lean_str(k) for k in s]) for s in syn])) for f, syn, _ in tables))
+    L.append("]")
+    L.append("/-- keys (canonical names) each of these functions cannot do without -/")
+    L.append("def mandatoryKeys : List (String × List String) := %s\n" % lean_list(
+        ["(%s, %s)" % (lean_str(f), lean_list([lean_str(k) for k in mand])) for f, _, mand in tables]))
+
+    # ---- process_input_dict_keys itself: the raise sites and the default policy
+    vp = PySrc(repo, "src/strengths/value_processing.py")
+    pk = vp.func("process_input_dict_keys")
+    dflt = [const_str(d) for d in pk.args.defaults]
+    tests = []
+    for n in ast.walk(pk):
+        if isinstance(n, ast.If) and any(isinstance(b, ast.If) and _raises(b.body) for b in n.body):
+            inner = [b for b in n.body if isinstance(b, ast.If) and _raises(b.body)][0]
+            tests.append((n.lineno, _norm(vp, n.test), _norm(vp, inner.test)))
+    tests = sorted(tests)
+    if len(tests) != 2 or dflt != ["error"]:
+        raise AnchorLost("value_processing.py:process_input_dict_keys raise sites / default policy")
+    L.append("/-- `process_input_dict_keys`: default policy and the two (condition, policy test) pairs that raise -/")
+    L.append("def keysDefaultPolicy : String := %s" % lean_str(dflt[0]))
+    L.append("def keysRaiseSites : List (String × String) := %s" % lean_list(["(%s, %s)" % (lean_str(a), lean_str(b)) for _, a, b in tests]))
+    ru = vp.func("retrive_units_system_from_dict")
+    words = []
+    for n in ast.walk(ru):
+        if isinstance(n, ast.Compare) and _norm(vp, n.left) == "v" and isinstance(n.ops[0], ast.Eq):
+            words.append((n.lineno, const_str(n.comparators[0])))
+    L.append("/-- strings accepted for a \"units\" key -/")
+    L.append("def unitsKeywords : List String := %s\n" % lean_list([lean_str(w) for _, w in sorted(words)]))
+
+    # ---- enumerations
+    grid, graph, script, net, rds, units = (srcs["rdgridspace.py"], srcs["rdgraphspace.py"], srcs["rdscript.py"],
+                                            srcs["rdnetwork.py"], srcs["rdsystem.py"], srcs["units.py"])
+    sbc = _class_func(grid, "RDGridSpace", "set_boundary_conditions")
+    axes = _membership_lists(grid, sbc, "axis")
+    conds = _membership_lists(grid, sbc, "boundary_conditions[axis]")
+    pol = _membership_lists(script, _class_func(script, "RDScript", "sampling_policy", setter=True), "sampling_policy")
+    modes = _membership_lists(script, _class_func(script, "RDScript", "init_state_processing", setter=True), "init_state_processing")
+    for nm, l in (("axes", axes), ("boundary conditions", conds), ("sampling policies", pol), ("processing modes", modes)):
+        if len(l) != 1:
+            raise AnchorLost("accepted-value list of " + nm)
+    L.append("/-- accepted values of the Python setters (anything else raises) -/")
+    L.append("def pyAxes : List String := %s" % lean_list([lean_str(x) for x in axes[0]]))
+    L.append("def pyBoundary : List String := %s" % lean_list([lean_str(x) for x in conds[0]]))
+    L.append("def pyPolicies : List String := %s" % lean_list([lean_str(x) for x in pol[0]]))
+    L.append("def pyModes : List String := %s" % lean_list([lean_str(x) for x in modes[0]]))
+    # the defaults assigned before validation in set_boundary_conditions
+    dfl = None
+    for n in sbc.body:
+        if isinstance(n, ast.Assign) and _norm(grid, n.targets[0]) == "self._boundary_conditions" and isinstance(n.value, ast.Dict):
+            dfl = [(const_str(k), const_str(v)) for k, v in zip(n.value.keys, n.value.values)]
+    if dfl is None:
+        raise AnchorLost("rdgridspace.py:set_boundary_conditions defaults")
+    L.append("def pyBoundaryDefaults : List (String × String) := %s" % lean_list(["(%s, %s)" % (lean_str(a), lean_str(b)) for a, b in dfl]))
+    # is anything stored before the input has been validated? (position of the defaults assignment vs the first raising loop)
+    i_assign = min(i for i, n in enumerate(sbc.body) if isinstance(n, ast.Assign) and _norm(grid, n.targets[0]) == "self._boundary_conditions")
+    i_check = [i for i, n in enumerate(sbc.body) if isinstance(n, ast.For) and any(isinstance(x, ast.Raise) for x in ast.walk(n))]
+    if not i_check:
+        raise AnchorLost("rdgridspace.py:set_boundary_conditions validation loop")
+    stores_in_check_loop = any(isinstance(x, ast.Assign) and _norm(grid, x.targets[0]).startswith("self._boundary_conditions[")
+                               for x in ast.walk(sbc.body[i_check[0]]))
+    L.append("/-- does `set_boundary_conditions` store anything before the whole input is validated? -/")
+    L.append("def bcStoresBeforeValidation : Bool := %s\n" % ("true" if (i_assign < i_check[0] or stores_in_check_loop) else "false"))
+
+    # ---- grid constructor size tests, cell_env length test
+    ctor = _class_func(grid, "RDGridSpace", "__init__")
+    sz = []
+    for n in ctor.body:
+        if isinstance(n, ast.If) and _raises(n.body):
+            sz.append(ExprTr(grid, {"self._w": "w", "self._h": "h", "self._d": "d"}).tr(n.test))
+    if len(sz) != 3:
+        raise AnchorLost("rdgridspace.py:RDGridSpace.__init__ size tests")
+    L.append("/-- `RDGridSpace.__init__`: raises when one of its three size tests holds -/")
+    L.append("def gridSizeBad (w h d : Int) : Bool := (%s)" % " || ".join(sz))
+    ce = _class_func(grid, "RDGridSpace", "cell_env", setter=True)
+    lt = None
+    for n in ast.walk(ce):
+        if isinstance(n, ast.If) and _raises(n.body) and "len(v)" in _norm(grid, n.test):
+            lt = ExprTr(grid, {"len(v)": "len", "self.size()": "size"}).tr(n.test)
+    if lt is None:
+        raise AnchorLost("rdgridspace.py:cell_env setter length test")
+    L.append("/-- `RDGridSpace.cell_env` setter (array form): raises when -/")
+    L.append("def cellEnvLenBad (len size : Int) : Bool := %s\n" % lt)
+
+    # ---- graph index test, species / reaction / environment index tests
+    gci = _class_func(graph, "RDGraphSpace", "get_cell_index")
+    gt = [n for n in gci.body if isinstance(n, ast.If) and _raises(n.body)]
+    if len(gt) != 1:
+        raise AnchorLost("rdgraphspace.py:get_cell_index range test")
+    L.append("/-- `RDGraphSpace.get_cell_index`: raises when -/")
+    L.append("def graphNodeIndexBad (size i : Int) : Bool := %s" % ExprTr(graph, {"cell_index": "i", "self.size()": "size"}).tr(gt[0].test))
+    chk = _class_func(graph, "RDGraphSpace", "check")
+    et = [ExprTr(graph, {"edge.i": "i", "edge.j": "i", "self.size()": "size"}).tr(n.test) for n in ast.walk(chk)
+          if isinstance(n, ast.If) and _raises(n.body) and "self.size()" in _norm(graph, n.test)]
+    if len(et) != 2 or et[0] != et[1]:
+        raise AnchorLost("rdgraphspace.py:check edge index tests")
+    L.append("def edgeIndexBad (size i : Int) : Bool := %s" % et[0])
+    for fname, cnt, lean in (("get_species_index", "self.nspecies()", "speciesIndexOk"), ("get_reaction_index", "self.nreactions()", "reactionIndexOk"),
+                             ("get_environment_index", "self.nenvironments()", "environmentIndexOk")):
+        fn = _class_func(net, "RDNetwork", fname)
+        first = fn.body[-1] if isinstance(fn.body[-1], ast.If) else None
+        for st in fn.body:
+            if isinstance(st, ast.If):
+                first = st
+                break
+        inner = [b for b in first.body if isinstance(b, ast.If)] if first is not None else []
+        if first is None or not _norm(net, first.test).startswith("isnumber(") or len(inner) != 1:
+            raise AnchorLost("rdnetwork.py:%s number branch" % fname)
+        L.append("def %s (n i : Int) : Bool := %s" % (lean, ExprTr(net, {"index": "i", cnt: "n"}).tr(inner[0].test)))
+    L.append("")
+
+    # ---- named dimensions and the dimension every quantity field demands
+    named = {}
+    for fn in units.tree.body:
+        if isinstance(fn, ast.FunctionDef) and fn.name.endswith("_units_dimensions"):
+            for n in ast.walk(fn):
+                if isinstance(n, ast.Return) and isinstance(n.value, ast.Call) and getattr(n.value.func, "id", "") == "UnitsDimensions":
+                    kw = {k.arg: int(const_number(units, k.value, {})) for k in n.value.keywords}
+                    named[fn.name] = (kw.get("space", 0), kw.get("time", 0), kw.get("quantity", 0))
+    for k in ("density", "surface", "volume", "quantity", "space", "time"):
+        if k + "_units_dimensions" not in named:
+            raise AnchorLost("units.py:%s_units_dimensions" % k)
+
+    def dim_of(src, node):
+        t = _norm(src, node)
+        m = re.fullmatch(r"(\w+)\(\)", t)
+        if m and m.group(1) in named:
+            return named[m.group(1)]
+        if isinstance(node, ast.Dict):
+            kw = {const_str(k): int(const_number(src, v, {})) for k, v in zip(node.keys, node.values)}
+            return (kw.get("space", 0), kw.get("time", 0), kw.get("quantity", 0))
+        raise AnchorLost("%s: dimension expression %s" % (src.rel, t))
+
+    def field_dim(src, cls, prop):
+        fn = _class_func(src, cls, prop, setter=True)
+        for n in ast.walk(fn):
+            if isinstance(n, ast.Call) and _norm(src, n.func) == "valproc.process_unitvar_input" and len(n.args) >= 3:
+                return dim_of(src, n.args[2])
+            if isinstance(n, ast.Call) and getattr(n.func, "id", "") in ("UnitValue", "UnitArray"):
+                conv = {k.arg: _norm(src, k.value) for k in n.keywords}
+                for a in n.args[1:2]:
+                    if isinstance(a, ast.Call) and getattr(a.func, "id", "") == "Units":
+                        dims = [k.value for k in a.keywords if k.arg == "dim"] + list(a.args[1:2])
+                        if dims and (conv.get("convert") == "False" or cls == "RDSystem"):
+                            return dim_of(src, dims[0])
+        raise AnchorLost("%s:%s.%s setter dimension" % (src.rel, cls, prop))
+    fields = [(net, "Species", "D"), (net, "Species", "density"), (grid, "RDGridSpace", "cell_vol"),
+              (graph, "RDGraphSpaceNode", "volume"), (graph, "RDGraphSpaceEdge", "surface"), (graph, "RDGraphSpaceEdge", "distance"),
+              (script, "RDScript", "t_sample"), (script, "RDScript", "time_step"), (script, "RDScript", "t_max"),
+              (script, "RDScript", "sampling_interval"), (rds, "RDSystem", "state")]
+    L.append("/-- named dimensions of units.py: (space, time, quantity) exponents -/")
+    L.append("def namedDims : List (String × Int × Int × Int) := %s" % lean_list(
+        ["(%s, (%d : Int), (%d : Int), (%d : Int))" % ((lean_str(k),) + v) for k, v in sorted(named.items())]))
+    L.append("/-- the dimension demanded by the setter of each quantity field -/")
+    L.append("def fieldDims : List (String × Int × Int × Int) := %s\n" % lean_list(
+        ["(%s, (%d : Int), (%d : Int), (%d : Int))" % ((lean_str(c + "." + p),) + field_dim(s, c, p)) for s, c, p in fields]))
+
+    # ---- UnitArray.set_value: are text items of a list recognised (and parsed as quantities)?
+    sv = _class_func(units, "UnitArray", "set_value")
+    keeps_objects = any(isinstance(n, ast.Call) and _norm(units, n.func) == "np.array" and
+                        any(k.arg == "dtype" and _norm(units, k.value) == "object" for k in n.keywords) for n in ast.walk(sv))
+    str_tests = [_norm(units, n.test) for n in ast.walk(sv) if isinstance(n, ast.If) and "str" in _norm(units, n.test)]
+    if not str_tests:
+        raise AnchorLost("units.py:UnitArray.set_value text item test")
+    L.append("/-- `UnitArray.set_value`: the test that recognises text items, and whether the items keep their Python type -/")
+    L.append("def arrayTextTests : List String := %s" % lean_list([lean_str(t) for t in str_tests]))
+    L.append("def arrayTextItemsParsed : Bool := %s\n" % ("true" if keeps_objects else "false"))
+
+    # ---- units symbol checks: which label list each _check_* consults
+    chk = []
+    for name in ("_check_space", "_check_time", "_check_quantity"):
+        fn = _class_func(units, "UnitsSystem", name)
+        m = None
+        for n in ast.walk(fn):
+            if isinstance(n, ast.If) and _raises(n.body):
+                mm = re.fullmatch(r"notvin_units_labels_dict\[\"(\w+)\"\]", _norm(units, n.test))
+                if mm:
+                    m = mm.group(1)
+        if m is None:
+            raise AnchorLost("units.py:UnitsSystem.%s membership test" % name)
+        chk.append((name, m))
+    L.append("def sysCheckLists : List (String × String) := %s\n" % lean_list(["(%s, %s)" % (lean_str(a), lean_str(b)) for a, b in chk]))
+
+    # ---- which positional accessors of the two space classes validate their position argument
+    def guards(src, cls, names):
+        rows = []
+        for nm in names:
+            fn = _class_func(src, cls, nm)
+            g = any(isinstance(n, ast.Call) and _norm(src, n.func) in ("self.get_cell_index", "self.is_within_bounds")
+                    and n.args and _norm(src, n.args[0]).startswith(("position", "cell_index")) for n in ast.walk(fn))
+            rows.append((nm, g))
+        return rows
+    acc = ["get_cell_env", "get_cell_vol", "get_neighbors", "are_neighbors"]
+    L.append("/-- positional accessors: does the method check its position (calls get_cell_index / is_within_bounds on it)? -/")
+    L.append("def gridAccessorGuards : List (String × Bool) := %s" % lean_list(
+        ["(%s, %s)" % (lean_str(a), "true" if b else "false") for a, b in guards(grid, "RDGridSpace", acc + ["get_cell_coordinates", "get_cell_index"])]))
+    L.append("def graphAccessorGuards : List (String × Bool) := %s\n" % lean_list(
+        ["(%s, %s)" % (lean_str(a), "true" if b else "false") for a, b in guards(graph, "RDGraphSpace", acc)]))
+    # ---- RDSystem.__init__: default state / chemostat generation (the only place the environment map is looked up)
+    # happens for `None` and `dict` arguments only
+    rinit = _class_func(rds, "RDSystem", "__init__")
+    tests = [(_norm(rds, n.test), [_norm(rds, b) for b in n.body]) for n in ast.walk(rinit) if isinstance(n, ast.If)]
+    L.append("def systemInitBranches : List (String × List String) := %s\n" % lean_list(
+        ["(%s, %s)" % (lean_str(a), lean_list([lean_str(x) for x in b])) for a, b in tests]))
+
+    sset = _class_func(rds, "RDSystem", "space", setter=True)
+    env_checked = any(isinstance(n, ast.If) and _raises(n.body) and "nenvironments()" in _norm(rds, n.test) for n in ast.walk(sset))
+    env_test = [ _norm(rds, n.test) for n in ast.walk(sset) if isinstance(n, ast.If) and _raises(n.body) and "nenvironments()" in _norm(rds, n.test)]
+    L.append("/-- does the `RDSystem.space` setter compare the cells' environment indices with the number of environments? -/")
+    L.append("def systemSpaceChecksEnv : Bool := %s" % ("true" if env_checked else "false"))
+    L.append("def systemSpaceEnvTests : List String := %s\n" % lean_list([lean_str(t) for t in env_test]))
+
+    # ---- engine.cpp: how keywords are compared, and how LibRDEngine.setup surfaces the native error codes
+    eng = _cpp(repo, "engine.cpp")
+    L.append("/-- body of `CompareStr(str1, str2)` in engine.cpp (normalised) -/")
+    L.append("def compareStrBody : String := %s" % lean_str(re.sub(r"\s+", "", cpp_function_body(eng, r"bool\s+CompareStr\s*\([^)]*\)\s*"))))
+    lre = PySrc(repo, "src/strengths/librdengine.py")
+    codes = []
+    for fname in ("_setup_graph", "_setup_grid"):
+        fn = _class_func(lre, "LibRDEngine", fname)
+        codes.append([t for t in _raise_tests(lre, fn) if t.startswith("res==")])
+    if not codes[0] or codes[0] != codes[1]:
+        raise AnchorLost("librdengine.py: error codes of engineexport_initialize_* turned into exceptions")
+    L.append("/-- `LibRDEngine._setup_grid/_setup_graph`: return codes of the native initialisation that raise -/")
+    L.append("def engineErrorCodes : List String := %s\n" % lean_list([lean_str(t) for t in codes[0]]))
+
+    # ---- coarse-graining map rules, state-index guard
+    cg = PySrc(repo, "src/strengths/coarsegrain.py")
+    L.append("/-- raise conditions of `check_index_map_validity`, in order -/")
+    L.append("def indexMapRaiseConds : List String := %s" % lean_list([lean_str(s) for s in _raise_tests(cg, cg.func("check_index_map_validity"))]))
+    gsi = _class_func(rds, "RDSystem", "get_state_index")
+    assigns = [(_norm(rds, n.targets[0]), _norm(rds, n.value)) for n in gsi.body if isinstance(n, ast.Assign)]
+    L.append("/-- `RDSystem.get_state_index`: how the two indices are obtained -/")
+    L.append("def stateIndexSources : List (String × String) := %s" % lean_list(["(%s, %s)" % (lean_str(a), lean_str(b)) for a, b in assigns]))
+    L.append("\nend Strengths.Gen")
+    return "\n".join(L) + "\n"
